@@ -21,6 +21,7 @@ UNSTABLE_SORTS = ('sort_unstable', 'sort_unstable_by', 'sort_unstable_by_key')
 
 
 def run(ctx):
+    _wiring(ctx)
     r1(ctx)
     r2(ctx)
     ctx.rule('R20.3', 'compatible() true only through validate(gap, dist_in_2r(last predicted boxes))')
@@ -182,3 +183,10 @@ def r4(ctx):
             ctx.check(ok, R, b, '%s:centre-difference-%s' % (name, coord), [repr(m) for m in mine],
                       '%s does not use the difference of the two boxes\' %s' % (name, coord))
     ctx.floor(R, n, 6)
+
+
+def _wiring(ctx):
+    """name-agreement wiring of the configuration values this property depends on (rules/wiring.py)"""
+    import wiring
+    ctx.rule('R20.5', 'configuration plumbing: same-named fields / parameters / setters / call arguments are not crossed')
+    ctx.floor('R20.5', wiring.run(ctx, 'R20.5', {'spatio_temporal_constraints'}), 5)
